@@ -14,6 +14,7 @@ PLAYBACK_FILE = {'geo-types': 'geo_types.rs', 'geo': 'geo.rs'}
 MODPATH = {
     'geomgraph.rs': 'algorithm::relate::geomgraph::verif',
     'c11_private.rs': 'algorithm::line_intersection::verif',
+    'c14_utils.rs': 'algorithm::validation::utils::verif',
     'c04_convert.rs': 'algorithm::bool_ops::i_overlay_integration::verif',
     'c09_rdp.rs': 'algorithm::simplify::verif',
     'c09_vw.rs': 'algorithm::simplify_vw::verif',
